@@ -87,13 +87,15 @@ def _p(rng):
     return rng.choice([0.0, 1.0, 1.0, 0.5, 0.2, 0.8, 0.1, round(rng.uniform(0.01, 0.99), 3)])
 
 
-def _mag_params(rng, top=1.0, key="magnitude"):
+def _mag_params(rng, top=1.0, key="magnitude", cap=None):
     """MagnitudeSampler arguments: 0 <= min <= magnitude <= max; std in {0, finite, inf}"""
     style = rng.choice(["const", "uniform", "normal", "normal"])
     mag = rng.choice([top, top, round(rng.uniform(0.05, 1.0) * top, 3), 0.0 if rng.random() < 0.15 else round(rng.uniform(0.1, 1.0) * top, 3)])
     mn = rng.choice([0.0, 0.0, round(rng.uniform(0.0, 1.0) * mag, 3), mag])
     mx = rng.choice([top if top >= mag else mag, mag, round(mag + rng.uniform(0.0, 1.0) * top, 3)])
     std = {"const": 0.0, "uniform": INF, "normal": round(rng.uniform(0.02, 0.6) * top, 3)}[style]
+    if cap is not None:
+        mx = min(mx, cap)   # the scale of this magnitude ends at `cap` (RandAugment levels 0..10: beyond it the operations themselves refuse)
     return {key: mag, f"{key}_std": std, f"{key}_min": mn, f"{key}_max": mx}
 
 
@@ -335,7 +337,7 @@ class RandAugRecipe(Recipe):
                     "translate_horizontal", "translate_vertical"]
 
     def gen(self, rng, kind):
-        p = _mag_params(rng, top=10.0)
+        p = _mag_params(rng, top=10.0, cap=10.0)
         if rng.random() < 0.5:
             p.update(magnitude=9, magnitude_std=0.5, magnitude_min=0.0, magnitude_max=10.0)
         p.update(num_ops=rng.choice([1, 2, 2, 3, 0]), fill_color=[124, 116, 104], interpolation=rng.choice(["bilinear", "bicubic", "random", "nearest"]),
